@@ -631,6 +631,10 @@ UPGRADER:
 				if p.headerValue == "" {
 					p.headerValue = string(data[start:i])
 				}
+				if len(p.trailer) == 0 {
+					return fmt.Errorf("invalid trailer '%v'", p.headerKey)
+				}
+				delete(p.trailer, p.headerKey)
 				p.Processor.OnTrailerHeader(p, p.headerKey, p.headerValue)
 				p.headerKey = ""
 				p.headerValue = ""
@@ -646,10 +650,6 @@ UPGRADER:
 			}
 		case stateBodyTrailerHeaderValue:
 			switch c {
-			case ' ':
-				if p.headerValue == "" {
-					p.headerValue = string(data[start:i])
-				}
 			case '\r':
 				if p.headerValue == "" {
 					p.headerValue = string(data[start:i])
